@@ -5,6 +5,7 @@ filter dead code: for a value that passed the gate, every typed-map node of the
 rewritten value has ALL the keys of the input, at every depth.
 -/
 import Martian.PostProcess
+import Martian.PostProcessDefs
 import Proofs.PostProcess
 import Proofs.PostProcessShape
 import Proofs.PostProcessDests
@@ -12,38 +13,6 @@ import Proofs.PostProcessDests
 namespace Martian.PostProcess
 
 /-! ## "all keys kept", along the type -/
-
-def KeptArr (R : J → J → Prop) : Nat → J → J → Prop
-  | 0, .arr xs, v' => ∃ ys, v' = .arr ys ∧ All2 R xs ys
-  | k + 1, .arr xs, v' => ∃ ys, v' = .arr ys ∧ All2 (KeptArr R k) xs ys
-  | _, _, _ => True
-
-/-- the result is an object whose keys are ALL the (sorted, de-duplicated) keys of the input -/
-def KeptMap (R : J → J → Prop) (v v' : J) : Prop :=
-  match v with
-  | .obj kvs => ∃ kvs', v' = .obj kvs' ∧
-      kvs'.map Prod.fst = sortStrings (dedup (kvs.map Prod.fst)) ∧
-      ∀ kv ∈ kvs', R ((lookupLast kvs kv.1).getD .null) kv.2
-  | _ => True
-
-def KeptStruct (RM : String → J → J → Prop) (v v' : J) : Prop :=
-  match v with
-  | .obj [] => True
-  | .obj kvs => ∃ kvs', v' = .obj kvs' ∧ ∀ kv ∈ kvs', RM kv.1 ((lookupLast kvs kv.1).getD .null) kv.2
-  | _ => True
-
-mutual
-/-- at every typed-map node of directory kind reached along `ty`, the rewritten value has all keys of the input -/
-def AllKeysKept : Ty → J → J → Prop
-  | .scalar, _, _ => True
-  | .file _, _, _ => True
-  | .arr e k, v, v' => if hasFile e then KeptArr (AllKeysKept e) k v v' else True
-  | .tmap e, v, v' => if hasFile e then KeptMap (AllKeysKept e) v v' else True
-  | .struct ms, v, v' => if hasFileMs ms then KeptStruct (AllKeysKeptMs ms) v v' else True
-def AllKeysKeptMs : List (String × String × Ty) → String → J → J → Prop
-  | [], _, _, _ => True
-  | (id, _, t) :: ms, k, v, v' => if id = k then AllKeysKept t v v' else AllKeysKeptMs ms k v v'
-end
 
 /-! ## level lemmas -/
 
